@@ -94,7 +94,10 @@ type Stats struct {
 	Known      map[string]int64       `json:"known"`    // known findings hit: id -> count
 	KnownEx    map[string]interface{} `json:"known_ex"` // one example per known finding
 	WallS      float64                `json:"wall_s"`
-	Cut        bool                   `json:"cut"` // the wall-clock cap ended the batch early
+	Cut        bool                   `json:"cut"`  // the wall-clock cap ended the batch early
+	Sets       map[string][]uint64    `json:"sets"` // further distinctness measures (e.g. schedules), filled at the end
+
+	sets map[string]map[uint64]struct{}
 
 	distinct   map[uint64]struct{}
 	sampleMod  uint64
@@ -106,7 +109,7 @@ func NewStats(sampleMod uint64) *Stats {
 		sampleMod = 1
 	}
 	return &Stats{Counters: map[string]int64{}, distinct: map[uint64]struct{}{}, Known: map[string]int64{}, KnownEx: map[string]interface{}{},
-		Sites: map[string]int64{}, sampleMod: sampleMod, wantSample: 3}
+		Sites: map[string]int64{}, sampleMod: sampleMod, wantSample: 3, sets: map[string]map[uint64]struct{}{}, Sets: map[string][]uint64{}}
 }
 
 func (s *Stats) Count(key string)        { s.Counters[key]++ }
@@ -120,6 +123,16 @@ func (s *Stats) Nontrivial(fp uint64) {
 	}
 }
 
+// InSet records a member of a named distinctness measure (e.g. the hash of a schedule).
+func (s *Stats) InSet(name string, h uint64) {
+	m := s.sets[name]
+	if m == nil {
+		m = map[uint64]struct{}{}
+		s.sets[name] = m
+	}
+	m[h] = struct{}{}
+}
+
 func (s *Stats) Sample(c interface{}) {
 	if len(s.Samples) < s.wantSample {
 		s.Samples = append(s.Samples, c)
@@ -130,6 +143,13 @@ func (s *Stats) Finish() {
 	s.Distinct = s.Distinct[:0]
 	for h := range s.distinct {
 		s.Distinct = append(s.Distinct, h)
+	}
+	for name, m := range s.sets {
+		l := make([]uint64, 0, len(m))
+		for h := range m {
+			l = append(l, h)
+		}
+		s.Sets[name] = l
 	}
 	s.TotalSteps = totalSteps
 	s.MaxSteps = maxSteps
@@ -166,6 +186,11 @@ func (s *Stats) Merge(o *Stats) {
 	}
 	if o.Cut {
 		s.Cut = true
+	}
+	for name, l := range o.Sets {
+		for _, h := range l {
+			s.InSet(name, h)
+		}
 	}
 }
 
